@@ -62,7 +62,7 @@ def run_job(args):
         import traceback
         s = {"crash": traceback.format_exc()[-1500:], "paths": 0, "completed": 0, "decisions": 0, "queries": 0, "unsat": 0,
              "sat": 0, "unknown_q": 0, "solver_s": 0, "reached": {}, "proved": {}, "violated": {}, "unknown": [],
-             "violations": [], "unsupported": [repr(e)[:200]], "budget": [], "pending": 0, "timed_out": False, "slow": [],
+             "violations": [], "unsupported": [repr(e)[:200]], "budget": [], "timeouts": [], "pending": 0, "timed_out": False, "slow": [],
              "witnesses": [], "samples": [], "functions": []}
     s["job"] = {"h": hname, "cfg": cfg}
     s["wall_s"] = round(time.time() - t0, 2)
@@ -162,8 +162,23 @@ def main(argv=None):
                 inconclusive.append(f"{jn}: solver unknown at {u}")
         for u in r["unsupported"]:
             inconclusive.append(f"{jn}: unsupported: {u}")
+        nonterm = False
+        for tmo in r.get("timeouts", []):
+            # a path that ran into the per-path time limit: replay its inputs on the real classes under a 30 s limit
+            v = {"label": "terminates", "inputs": tmo["inputs"], "uf": tmo["uf"]}
+            path = replay_file(prop, modname, r["job"]["h"], r["job"]["cfg"], v, f"t{len(violations_new)}")
+            try:
+                subprocess.run(["python3-vt", "-m", "pvx.replay", path], cwd=VERIF, capture_output=True, text=True, timeout=30)
+                os.remove(path)
+            except subprocess.TimeoutExpired:
+                replays += 1
+                nonterm = True
+                if sum(1 for x in violations_new if x["label"] == "terminates") < 3:
+                    violations_new.append({"label": "terminates", "job": r["job"], "replay": path, "py312": "not run", "inputs": tmo["inputs"]})
+                break
         for u in r["budget"]:
-            inconclusive.append(f"{jn}: decision budget exceeded after {u} decisions")
+            if not nonterm:
+                inconclusive.append(f"{jn}: decision/time budget exceeded after {u} decisions")
         if r["timed_out"] or r["pending"]:
             inconclusive.append(f"{jn}: exploration incomplete (pending {r['pending']}, timed_out {r['timed_out']})")
         if not r["reached"] and not r["job"]["cfg"].get("may_be_empty"):
